@@ -330,33 +330,60 @@ CLEAN_ARGS = [
     {"paths": ["out"], "commit": True, "all": True, "safe": True},
     {"paths": ["src.txt"], "commit": True, "all": True, "safe": True},
     {"paths": ["."], "commit": False, "all": True, "safe": False},
+    # the same selections asked from a directory outside the project (STEPUP_ROOT points back)
+    {"paths": ["."], "commit": True, "all": True, "safe": True, "cwd": "elsewhere"},
+    {"paths": ["out"], "commit": True, "all": True, "safe": True, "cwd": "elsewhere"},
 ]
 
 
 def run_clean_tool(world, args):
+    """`stepup clean` on the tree of `world`. args["cwd"] (optional) is where the user stands:
+    the project root (default: the selection runs on a connection opened here), or "elsewhere",
+    a directory outside the project with STEPUP_ROOT pointing back at it; then the tool's own
+    entry point translates the paths and opens the database, as the command line does."""
     from stepup.core import clean as su_clean
     from stepup.core.sqlite3 import connect
 
     saved = os.getcwd()
-    os.chdir(world.root)
+    elsewhere = args.get("cwd") == "elsewhere"
     saved_env = os.environ.pop("STEPUP_ROOT", None), os.environ.pop("HERE", None)
     applied = [(obj, name, getattr(obj, name)) for obj, name, _ in PATCHES]
     for obj, name, value in PATCHES:
         setattr(obj, name, value)
-    con = connect(".stepup/graph.db", read_only=True)
-    try:
-        ns = argparse.Namespace(**{**args, "paths": [Path(p) for p in args["paths"]]})
-        tr_paths = {Path(p).normpath() for p in args["paths"]}
-        import contextlib
-        import io
+    import contextlib
+    import io
 
-        with contextlib.redirect_stdout(io.StringIO()):
-            su_clean.clean(con, tr_paths, ns)
+    con = None
+    cwd = world.root
+    try:
+        flags = {k: v for k, v in args.items() if k not in ("cwd",)}
+        if elsewhere:
+            cwd = world.root.rstrip("/") + "-elsewhere"
+            os.makedirs(cwd, exist_ok=True)
+            os.chdir(cwd)
+            os.environ["STEPUP_ROOT"] = os.path.relpath(world.root, cwd)
+            paths = [Path(os.path.relpath(os.path.join(world.root, p), cwd)) for p in args["paths"]]
+            ns = argparse.Namespace(**{**flags, "paths": paths})
+            with contextlib.redirect_stdout(io.StringIO()):
+                su_clean.clean_tool(ns)
+        else:
+            os.chdir(world.root)
+            con = connect(".stepup/graph.db", read_only=True)
+            ns = argparse.Namespace(**{**flags, "paths": [Path(p) for p in args["paths"]]})
+            tr_paths = {Path(p).normpath() for p in args["paths"]}
+            with contextlib.redirect_stdout(io.StringIO()):
+                su_clean.clean(con, tr_paths, ns)
     finally:
-        con.close()
+        if con is not None:
+            con.close()
         for obj, name, value in applied:
             setattr(obj, name, value)
         os.chdir(saved)
+        os.environ.pop("STEPUP_ROOT", None)
+        if elsewhere:
+            import shutil
+
+            shutil.rmtree(cwd, ignore_errors=True)
         for k, v in zip(("STEPUP_ROOT", "HERE"), saved_env):
             if v is not None:
                 os.environ[k] = v
